@@ -19,17 +19,21 @@ RULE = (
     'withdraw (bare / with next hop / with attributes), announce_watchdog, withdraw_watchdog, resend (plain or enhanced, one family or all), clear (rib.withdraw()), '
     'begin (create the generator the way Peer._send_route_updates / Protocol.new_update_generator do: only when none is open and pending(); include_withdraw False for the first one of a session), '
     'step n (send n wire messages), finish. Operations interleave freely with an open generator (schedule quantifier). Session: ADD-PATH on/off, group-updates on/off, first generator of the session or not. '
-    'Every wire message is applied in order by an independent model peer; at every quiescent point (no generator, pending() false) and after the final drain the model table must equal the table '
-    'derived from cached_routes() (each cached route encoded alone and decoded by refwire). '
+    'Every wire message is applied in order by an independent model peer. At every quiescent point (no generator, pending() false) and after the final drain: '
+    '(1) the model table equals the table derived from cached_routes() (each cached route encoded alone and decoded by refwire: same keys, attributes, next hop, label); '
+    '(2) the model table equals what the last operation on every key asked for (no stale announce survives, nothing withdrawn is back). In between: nothing in the model table that was never requested. '
     'Non-trivial = a key announced with >= 2 different attribute sets, or an announce after a withdraw of the same key inside one flush window, or a RIB operation executed while a generator was open'
 )
 ASSUMPTIONS = [
     'refwire decoder is trusted; the label is not part of the route identity (RFC 8277), it is compared as part of the value',
     'minimality of the UPDATE stream is not demanded (duplicates are fine); ordering between different prefixes is not demanded',
-    'ROUTE-REFRESH (BoRR/EoRR) messages and End-of-RIB markers are ignored by the model peer',
-    'a generator is only created when none is open and pending() is true, as Peer._send_route_updates does; the first generator of a session runs with include_withdraw=False',
+    'ROUTE-REFRESH (BoRR/EoRR) messages, End-of-RIB markers and UPDATEs without NLRI are ignored by the model peer',
+    'a generator is only created when none is open and pending() is true, as Peer._send_route_updates does; the first generator of a session runs with include_withdraw=False and the peer table is empty then',
     'watchdog-tagged routes enter through add_to_rib_watchdog (configuration load / reload path); plain announces and withdraws go through Configuration.announce_route / withdraw_route (API path)',
-    'between quiescent points only "no invention" is demanded: every route in the model table was requested at some point with exactly these attributes and next hop',
+    'what an operation asks for (clause 2): announce sets the key, withdraw and clear remove it, announce_watchdog announces every route of the group which is down, '
+    'withdraw_watchdog withdraws the prefix of every route of the group which is up (whoever announced it last); the value of an announce is that route encoded alone by exabgp (C01 decides that encoding)',
+    'the signature names the root cause with the help of two diagnoses which do not take part in the verdict: a look at the announce queues when a snapshot is taken '
+    '(a superseded announce still queued) and which withdraws a generator running with include_withdraw=False left out',
     'environment variable C04_EXCLUDE (comma separated fnmatch patterns) mutes listed signatures; it is used only by sensitivity runs to look behind already reported root causes',
 ]
 
@@ -452,7 +456,7 @@ class Driver:
         return self.generator is None and not self.call('pending', self.rib.pending)
 
     def compare(self, where: str) -> None:
-        """the strong invariant: model table == table derived from cached_routes()"""
+        """at a quiescent point: the peer's table == the table derived from cached_routes() == what the last operation on every key asked for"""
         self.comparisons += 1
         expected: dict[tuple, dict] = {}
         for route in self.call('cached_routes', lambda: list(self.rib.cached_routes())):
@@ -601,19 +605,23 @@ def cases(draw):
 
 
 def fixed_cases() -> list:
+    """the minimal histories of the root causes met so far plus their passing neighbours (run in every tier)"""
     plain = {'addpath': False, 'group': True, 'first': False}
+    first = {'addpath': False, 'group': True, 'first': True}
+    other = {'addpath': True, 'group': False, 'first': True}
     out = []
-    for session in (plain, {'addpath': True, 'group': False, 'first': True}):
-        # x, y, x inside one window
-        out.append({'session': session, 'ops': [['announce', 0, 0, 0, 0, 0], ['announce', 0, 1, 0, 0, 0], ['announce', 0, 0, 0, 0, 0]]})
-        # x, y, withdraw inside one window
-        out.append({'session': session, 'ops': [['announce', 0, 0, 0, 0, 0], ['announce', 0, 1, 0, 0, 0], ['withdraw', 0, 0, 0, 0]]})
-        # announce, flush, withdraw + announce in one window
-        out.append({'session': session, 'ops': [['announce', 2, 0, 0, 0, 0], ['begin'], ['finish'], ['withdraw', 2, 0, 0, 0], ['announce', 2, 1, 0, 0, 0]]})
-        # refresh then withdraw before the generator starts
-        out.append({'session': session, 'ops': [['announce', 0, 0, 0, 0, 0], ['begin'], ['finish'], ['resend', False, None], ['withdraw', 0, 0, 0, 0]]})
-        out.append({'session': session, 'ops': [['announce', 4, 0, 0, 0, 0], ['resend', True, None], ['withdraw', 4, 0, 0, 0]]})
+    for session in (plain, other):
+        out.append({'note': 'x, y, x inside one window', 'session': session, 'ops': [['announce', 0, 0, 0, 0, 0], ['announce', 0, 1, 0, 0, 0], ['announce', 0, 0, 0, 0, 0]]})
+        out.append({'note': 'x, y, withdraw inside one window', 'session': session, 'ops': [['announce', 0, 0, 0, 0, 0], ['announce', 0, 1, 0, 0, 0], ['withdraw', 0, 0, 0, 0]]})
+        out.append({'note': 'x, y inside one window (passes: emitted in this order)', 'session': session, 'ops': [['announce', 0, 0, 0, 0, 0], ['announce', 0, 1, 0, 0, 0]]})
+        out.append({'note': 'announce, flush, withdraw + announce in one window', 'session': session, 'ops': [['announce', 2, 0, 0, 0, 0], ['begin'], ['finish'], ['withdraw', 2, 0, 0, 0], ['announce', 2, 1, 0, 0, 0]]})
+        out.append({'note': 'same labeled prefix announced again with another label', 'session': session, 'ops': [['announce', 4, 0, 0, 0, 0], ['announce', 4, 0, 0, 0, 1]]})
+        out.append({'note': 'x queued and being sent, y and x arrive while the generator is open', 'session': session, 'ops': [['announce', 1, 0, 0, 0, 0], ['announce', 0, 0, 0, 0, 0], ['announce', 2, 0, 0, 0, 0], ['begin'], ['announce', 0, 1, 0, 0, 0], ['announce', 0, 0, 0, 0, 0], ['withdraw', 2, 0, 0, 0], ['finish']]})
+    out.append({'note': 'refresh then withdraw before the first generator of the session', 'session': first, 'ops': [['announce', 0, 0, 0, 0, 0], ['resend', False, None], ['withdraw', 0, 0, 0, 0]]})
+    out.append({'note': 'refresh then withdraw, not the first generator (passes)', 'session': plain, 'ops': [['announce', 0, 0, 0, 0, 0], ['resend', False, None], ['withdraw', 0, 0, 0, 0]]})
+    out.append({'note': 'enhanced refresh then withdraw before the first generator, labeled', 'session': other, 'ops': [['announce', 4, 0, 0, 0, 0], ['resend', True, None], ['withdraw', 4, 0, 0, 0]]})
+    out.append({'note': 'watchdog group down, up, route replaced through the API, group down', 'session': plain, 'ops': [['announce_wd', 0, 0, 0, 0, 0, 0, True], ['announce_watchdog', 0], ['begin'], ['finish'], ['announce', 0, 1, 1, 0, 0], ['withdraw_watchdog', 0], ['announce_watchdog', 0]]})
     return out
 
 
-ENGINES = [Engine('histories', cases, check, quick=500, thorough=6000, batch=250, fixed_cases=fixed_cases)]
+ENGINES = [Engine('histories', cases, check, quick=1500, thorough=6000, batch=500, fixed_cases=fixed_cases)]
